@@ -119,3 +119,22 @@ func funcKey(fn *ssa.Function) string {
 	}
 	return fn.String()
 }
+
+// rootsFor: the harness packages plus every hand-written package of the repository the
+// code under test can call into (their function bodies must be available as SSA).
+func rootsFor(harnessPkgs []string) []string {
+	set := map[string]bool{vrtPkg: true}
+	for _, p := range []string{"/pkg/crypto", "/x/bitcoin/types", "/x/bitcoin/keeper", "/x/relayer/types", "/x/relayer/keeper",
+		"/x/locking/types", "/x/locking/keeper", "/x/goat/types", "/x/goat/keeper"} {
+		set[repoMod+p] = true
+	}
+	for _, p := range harnessPkgs {
+		set[p] = true
+	}
+	var out []string
+	for p := range set {
+		out = append(out, p)
+	}
+	sort.Strings(out)
+	return out
+}
